@@ -126,6 +126,20 @@ func corpus() []Case {
 			{Op: "wc", W: "stop"}, {Op: "lengths", Ns: 32, Np: 8}, sp}},
 		{Source: "lancero", Seed: 13, Ops: []Op{st, {Op: "coupleerr", On: true}, {Op: "couplefb", On: true}, {Op: "stopc"},
 			{Op: "mix", Idx: []int{0}, Nfrac: 1}, {Op: "mix", Idx: []int{1, 3}, Nfrac: 2}, trig(3), sp}},
+		// a request that arrives when the core loop has ended by itself but the teardown is still going on
+		{Source: "erroring", Seed: 15, Ops: []Op{st, {Op: "dying"}, trig(0)}},
+		{Source: "erroring", Seed: 16, Ops: []Op{st, {Op: "dying"}, {Op: "wc", W: "pause"}, trig(0)}},
+		{Source: "erroring", Seed: 17, Ops: []Op{st, {Op: "dying"}, {Op: "lengths", Ns: 32, Np: 8}, sp}},
+		{Source: "erroring", Seed: 18, Ops: []Op{st, {Op: "dying"}, {Op: "projectors", PIdx: 0, B64Ok: true, MatOk: true, Pcols: 16}}},
+		{Source: "erroring", Seed: 19, Ops: []Op{st, {Op: "dying"}, {Op: "label"}}},
+		{Source: "erroring", Seed: 20, Ops: []Op{st, {Op: "dying"}, {Op: "comment"}}},
+		{Source: "erroring", Seed: 21, Ops: []Op{st, {Op: "dying"}, {Op: "coupleerr"}}},
+		{Source: "erroring", Seed: 22, Ops: []Op{st, {Op: "dying"}, {Op: "couplefb"}}},
+		{Source: "erroring", Seed: 23, Ops: []Op{st, {Op: "dying"}, {Op: "gadd", Conns: [][2]int{{0, 0}}}}},
+		{Source: "erroring", Seed: 24, Ops: []Op{st, {Op: "dying"}, {Op: "gdel", Conns: [][2]int{{0, 0}}}}},
+		{Source: "erroring", Seed: 25, Ops: []Op{st, {Op: "dying"}, {Op: "stopc"}}},
+		{Source: "erroring", Seed: 26, Ops: []Op{st, {Op: "dying"}, {Op: "storeraw", N: 4}}},
+		{Source: "erroring", Seed: 27, Ops: []Op{st, {Op: "dying"}, {Op: "wc", W: "stop"}, sp, st}},
 		// restart on the same server
 		{Source: "triangle", Seed: 14, Ops: []Op{st, trig(1), sp, trig(1), st, st, trig(1), sp, sp}},
 	}
@@ -166,6 +180,8 @@ func gen(seed uint64, tier string) []interface{} {
 		for j := 0; j < nreq; j++ {
 			if src == "erroring" && q.Chance(1, 3) {
 				ops = append(ops, Op{Op: "settle"})
+			} else if src == "erroring" && q.Chance(1, 3) {
+				ops = append(ops, Op{Op: "dying"})
 			}
 			ops = append(ops, randReq(q, src))
 		}
